@@ -72,6 +72,14 @@ func genC18(t *rapid.T) C18Case {
 	default:
 		n := rapid.OneOf(rapid.IntRange(0, 64), rapid.IntRange(0, 8986), rapid.SampledFrom([]int{0, 1, 15, 16, 17, 8985, 8986})).Draw(t, "len")
 		c.Payload = rapid.SliceOfN(rapid.Byte(), n, n).Draw(t, "buf")
+		if n >= 16 && rapid.Bool().Draw(t, "plausibleheader") {
+			// a header as netlink peers write it: a control or an audit type, and a length word that agrees with
+			// the buffer or does not (the kernel's audit records are known for the latter)
+			typ := rapid.OneOf(rapid.SampledFrom([]uint16{2, 3, 1, 4, 0, 15, 16, 1000, 1300, 1305}), rapid.Uint16Range(0, 20), rapid.Uint16Range(1000, 2999)).Draw(t, "hdrtype")
+			l := rapid.OneOf(rapid.SampledFrom([]int{n, 16, 20, n - 1, n + 1, 0, 17, n - 4}), rapid.IntRange(16, n)).Draw(t, "hdrlen")
+			ne.PutUint32(c.Payload[0:], uint32(max(l, 0)))
+			ne.PutUint16(c.Payload[4:], typ)
+		}
 	}
 	return c
 }
